@@ -55,7 +55,10 @@ structure Os where
   /-- io_uring flavour of the operations (`PollAdd` waits in the kernel; the polling flavour of `PollOnce`
       is only run after an event and always returns 0) -/
   iour : Bool := false
-  chans : Nat → Chan := fun _ => {}
+  /-- kernel objects, by the channel number they were created with -/
+  objs : Nat → Chan := fun _ => {}
+  /-- `dup`: descriptor `d` refers to the kernel object of channel `alias d` (identity unless dup'd) -/
+  alias : Nat → Nat := fun c => c
   ops : Id → Option OpKind := fun _ => none
   /-- what an operation's buffer holds after completion -/
   got : Id → Bytes := fun _ => []
@@ -91,7 +94,10 @@ def Chan.hupNow (ch : Chan) : Bool :=
   | .sock => ch.eof && ch.hup
   | _ => false
 
-def setChan (os : Os) (c : Nat) (ch : Chan) : Os := { os with chans := upd os.chans c ch }
+/-- the kernel object behind descriptor / channel `c` -/
+def Os.chans (os : Os) (c : Nat) : Chan := os.objs (os.alias c)
+
+def setChan (os : Os) (c : Nat) (ch : Chan) : Os := { os with objs := upd os.objs (os.alias c) ch }
 
 /-- read-like syscall on channel `c` into a buffer of capacity `cap` -/
 def doRead (os : Os) (id : Id) (c cap : Nat) : Option Res × Os :=
@@ -188,6 +194,18 @@ def decide (os : Os) (id : Id) : Decision × Os :=
   | some (.job _) => (.blocking, os)
   | some (.readat _ _ _) => (.blocking, os)
   | some (.splice cin cout _) => (.wait [(cin, .read), (cout, .write)], os)
+
+/-- the event `epoll_wait` would report for descriptor `c` right now (armed interest ∩ readiness, HUP/ERR) -/
+def firedOf (s : St Os) (c : Nat) : Option Fired :=
+  match s.epoll c with
+  | none => none
+  | some ev =>
+    let ch := s.world.chans c
+    if !(ev.readable || ev.writable) then none
+    else
+      let r := (ev.readable && ch.readableNow) || ch.hupNow
+      let w := (ev.writable && ch.writableNow) || ch.hupNow
+      if r || w then some ⟨c, r, w⟩ else none
 
 /-- what `epoll_wait` reports, scanning the given descriptors in order -/
 def firedNow (s : St Os) : List Nat → List Fired
